@@ -37,6 +37,8 @@ type c02Case struct {
 	ExplicitRoots bool     `json:"explicit_roots"`       // C10 only: the constraint names all layout roots (two, descending order)
 	StepName      string   `json:"step_name"`            // name of the step under test ("" = s0)
 	Repeats       int      `json:"repeats"`
+	NoRoots       bool     `json:"no_roots,omitempty"` // the layout lists no root CA: nobody is authorised through a certificate
+	Params        bool     `json:"params,omitempty"`   // verification with a (non-matching) parameter dictionary
 }
 
 // c02Kind describes one kind of link file for step s0.
@@ -69,7 +71,7 @@ func c02File(tag, nameKey string, wrapper string, sigs ...hx.WSig) hx.WMetaFile 
 	return hx.WMetaFile{Name: hx.LinkFileName(c02Step, id), Wrapper: wrapper, Meta: hx.MMeta{Link: c02Link(tag)}, Sigs: sigs}
 }
 
-func certChainOK(c c02Case) bool { return c.Intermediate != "none" }
+func certChainOK(c c02Case) bool { return c.Intermediate != "none" && !c.NoRoots }
 
 var c02Kinds = map[string]c02Kind{}
 var c02KindNames []string
@@ -254,7 +256,10 @@ func c02World(c c02Case) (hx.World, map[string][]string, error) {
 		constraint.DNSNames = []string{"b.example", "a.example"}
 		constraint.Emails = []string{}
 	}
-	if c.ExplicitRoots {
+	if c.NoRoots {
+		lay.RootCas = nil
+	}
+	if c.ExplicitRoots && !c.NoRoots {
 		r2 := hx.MKeyFromLib(certs["foreignroot"].KeyObject())
 		lay.RootCas[r2.KeyID] = r2
 		ids := []string{rootKey.KeyID, r2.KeyID}
@@ -314,6 +319,9 @@ func c02World(c c02Case) (hx.World, map[string][]string, error) {
 	}
 	w.Layout = hx.WMetaFile{Name: "root.layout", Wrapper: c.LayoutWrapper, Meta: hx.MMeta{Layout: &lay}, Sigs: []hx.WSig{{Key: "ed25519-1"}}}
 	w.VerifierKeys = []hx.WKey{{Key: "ed25519-1"}}
+	if c.Params {
+		w.Params = map[string]string{"UNUSED_PARAMETER": "value", "OTHER": "{UNUSED_PARAMETER}"}
+	}
 	return w, truth, nil
 }
 
@@ -413,7 +421,13 @@ func c02Eval(c c02Case, r *hx.Rec) error {
 	r.Label("second_step=%v/first=%v", c.SecondStep, c.SecondStep && c.SecondFirst)
 	r.Label("foreign_intermediate=%v", c.ForeignInter)
 	r.Label("stepname=%q", c.StepName)
-	r.Key("%d|%v%v%v%v%s|%s|%s|%s", c.Threshold, c.SecondStep, c.SecondFirst, c.ForeignInter, c.MultiValued, c.StepName, c.LayoutWrapper, c.Intermediate, strings.Join(sorted, ","))
+	if c.NoRoots {
+		r.Label("no-layout-roots")
+	}
+	if c.Params {
+		r.Label("with-parameters")
+	}
+	r.Key("%d|%v%v%v%v%s|%s|%s|%s|%v%v", c.Threshold, c.SecondStep, c.SecondFirst, c.ForeignInter, c.MultiValued, c.StepName, c.LayoutWrapper, c.Intermediate, strings.Join(sorted, ","), c.NoRoots, c.Params)
 
 	var first *bool
 	for rep := 0; rep < c.Repeats; rep++ {
@@ -510,6 +524,8 @@ func c02Gen(t *rapid.T) c02Case {
 		ForeignInter:  rapid.Bool().Draw(t, "foreigninter"),
 		MultiValued:   rapid.Bool().Draw(t, "multivalued"),
 		StepName:      rapid.SampledFrom([]string{"", "", "build.v2", "release-1.0.x", "Build", "x"}).Draw(t, "stepname"),
+		NoRoots:       rapid.IntRange(0, 7).Draw(t, "noroots") == 0,
+		Params:        rapid.IntRange(0, 3).Draw(t, "params") == 0,
 	}
 	c.Kinds = rapid.SliceOfNDistinct(rapid.SampledFrom(c02KindNames), 0, 5, rapid.ID[string]).Draw(t, "kinds")
 	return c
@@ -542,7 +558,8 @@ func c02Exhaustive(t *testing.T) {
 				continue
 			}
 			c := c02Case{Threshold: th, SecondStep: n%3 == 0, LayoutWrapper: []string{"legacy", "dsse"}[n%2], Intermediate: []string{"layout", "caller"}[(n/2)%2],
-				Kinds: append([]string{}, cur...), Repeats: hx.Pick(6, 16), SecondFirst: n%5 < 2, ForeignInter: (n/3)%2 == 0, MultiValued: (n/7)%2 == 0, StepName: []string{"", "build.v2", "", "release-1.0.x"}[(n/11)%4]}
+				Kinds: append([]string{}, cur...), Repeats: hx.Pick(6, 16), SecondFirst: n%5 < 2, ForeignInter: (n/3)%2 == 0, MultiValued: (n/7)%2 == 0, StepName: []string{"", "build.v2", "", "release-1.0.x"}[(n/11)%4],
+				NoRoots: (n/13)%8 == 0, Params: (n/5)%4 == 0}
 			r := &hx.Rec{}
 			err := c02Eval(c, r)
 			r.Label("enumerated")
